@@ -8,18 +8,29 @@
 (*            repeated on the SAME objects without failures (retry), the objects are destroyed and     *)
 (*            the outstanding heap blocks / mappings / descriptors are counted.                        *)
 (* The state is the abstract status of the execution; the actions are parameterised by what the code   *)
-(* reported (call name, returned error, whether a failure was injected during the call, digest of the  *)
-(* observable state after the call).  An action is enabled exactly for the results the property        *)
-(* allows, so a recorded execution is a behaviour of this module iff the property held on it:          *)
-(*   PrefixEqualsClean  while no injected failure has been answered with an error, every call returns  *)
-(*                      the clean result and leaves the clean digest (an injected failure the code     *)
-(*                      tolerated must be invisible);                                                  *)
-(*   ErrorOrCorrect     a call during which a failure was injected returns an error, or it returns     *)
-(*                      the clean result with the clean digest - never success with different output;  *)
-(*   (after an error the program has legitimately diverged: later calls are unconstrained, they only   *)
-(*    must not crash - a crash ends the trace with an ABORT line no action consumes)                   *)
+(* reported: call name, returned error, whether a failure was injected during the call, and two        *)
+(* digests of the observable state after the call:                                                     *)
+(*   d  exact      - the representation (section bytes, labels, relocations, node list, layouts ...)   *)
+(*   s  semantic   - what that state means: for the assembler and the containers s covers the same as  *)
+(*                   d; where asmjit is free to produce a different but equivalent result after an     *)
+(*                   internal request failed and was repeated later (register allocator: spill slot    *)
+(*                   numbering; ConstPool: a lost gap record makes the pool less compact) s is the     *)
+(*                   meaning only - results of EXECUTING the generated functions, "every constant is   *)
+(*                   found, aligned, at the offset that was returned".                                 *)
+(* An action is enabled exactly for the results the property allows, so a recorded execution is a      *)
+(* behaviour of this module iff the property held on it:                                               *)
+(*   Deterministic      before any failure was injected every call equals the clean run exactly        *)
+(*                      (otherwise the harness, not asmjit, is at fault);                              *)
+(*   ErrorOrCorrect     from the first injected failure on, while no error has been reported: a call   *)
+(*                      returns an error (the run has then legitimately diverged), or it returns what  *)
+(*                      the clean run returned AND leaves a state that means the same (s) - never      *)
+(*                      success with a different meaning.  This also covers failures that asmjit       *)
+(*                      tolerates at the failing request and reports (or repairs) in a later call;     *)
+(*   (after an error the program has diverged: later calls are unconstrained, they only must not       *)
+(*    crash - a crash ends the trace with an ABORT line no action consumes)                            *)
 (*   Reusable           the reset between fault phase and retry succeeds;                              *)
-(*   RetryEqualsClean   the retry reproduces the clean run call by call (error, digest) and is complete*)
+(*   RetryEqualsClean   the retry reproduces the clean run call by call - error, d and s: exactly the  *)
+(*                      code a failure-free run produces - and is complete;                            *)
 (*   NoLeak             after destruction nothing allocated since the start of the execution is left.  *)
 (* Which error code a failing call returns, and which partial internal state it leaves, is free.       *)
 EXTENDS Naturals, Sequences
@@ -28,9 +39,9 @@ VARIABLES
   phase,      \* "idle" | "clean" | "fault" | "reset" | "retry" | "destroyed" | "done"
   wl,         \* workload of the execution in progress
   expWl,      \* workload the ghost belongs to
-  expected,   \* ghost: sequence of <<call, result, digest>> of the failure-free run of expWl
+  expected,   \* ghost: sequence of <<call, result, d, s>> of the failure-free run of expWl
   pos,        \* calls consumed in the current phase
-  sync,       \* fault phase: TRUE while the run is still indistinguishable from the clean run
+  sync,       \* fault phase: TRUE while no error was reported and every call meant what the clean run's call meant
   hits,       \* number of calls during which a failure was injected (fault phase)
   heap        \* <<blocks, mappings, descriptors>> outstanding after destruction (0,0,0 before)
 
@@ -44,59 +55,76 @@ CInit == /\ phase = "idle" /\ wl = "" /\ expWl = "" /\ expected = <<>> /\ pos = 
 
 Quiescent == phase \in {"idle", "done"}
 
+(* Every action is written  Guard /\ Effect : the guard (suffix Ok) is a state predicate - it is the whole *)
+(* verdict - and the effect is a total function of state and event.                                       *)
+
 (* ---- clean run: defines the ghost ---- *)
+StartCleanOk(w) == Quiescent
 StartClean(w) ==
-  /\ Quiescent
+  /\ StartCleanOk(w)
   /\ phase' = "clean" /\ wl' = w /\ expWl' = w /\ expected' = <<>> /\ pos' = 0
   /\ sync' = TRUE /\ hits' = 0 /\ heap' = <<0, 0, 0>>
 
-CleanCall(i, c, r, f, d) ==
-  /\ phase = "clean" /\ i = pos + 1 /\ ~f
-  /\ expected' = Append(expected, <<c, r, d>>) /\ pos' = i
+CleanCallOk(i, c, r, f, d, s) == phase = "clean" /\ i = pos + 1 /\ ~f
+CleanCall(i, c, r, f, d, s) ==
+  /\ CleanCallOk(i, c, r, f, d, s)
+  /\ expected' = Append(expected, <<c, r, d, s>>) /\ pos' = i
   /\ UNCHANGED <<phase, wl, expWl, sync, hits, heap>>
 
 (* ---- fault run ---- *)
-StartFault(w, cls) ==
+StartFaultOk(w, cls) ==
   /\ Quiescent /\ cls \in Classes
   /\ w = expWl /\ Len(expected) > 0           \* the ghost of this workload is known
+StartFault(w, cls) ==
+  /\ StartFaultOk(w, cls)
   /\ phase' = "fault" /\ wl' = w /\ pos' = 0 /\ sync' = TRUE /\ hits' = 0 /\ heap' = <<0, 0, 0>>
   /\ UNCHANGED <<expWl, expected>>
 
-SameAsClean(i, c, r, d) == i <= Len(expected) /\ expected[i] = <<c, r, d>>
+ExactlyClean(i, c, r, d, s) == i <= Len(expected) /\ expected[i] = <<c, r, d, s>>
+MeansClean(i, c, r, s) == i <= Len(expected) /\ expected[i][1] = c /\ expected[i][2] = r /\ expected[i][4] = s
 
-FaultCall(i, c, r, f, d) ==
+FaultCallOk(i, c, r, f, d, s) ==
   /\ phase = "fault" /\ i = pos + 1 /\ i <= Len(expected)
   /\ c = expected[i][1]                       \* the program is fixed
-  /\ IF sync
-       THEN IF ~f THEN SameAsClean(i, c, r, d)                            \* PrefixEqualsClean
-                  ELSE r # Ok \/ SameAsClean(i, c, r, d)                  \* ErrorOrCorrect
-       ELSE TRUE                                                         \* diverged after a reported error
-  /\ sync' = (sync /\ SameAsClean(i, c, r, d))
+  /\ IF ~sync THEN TRUE                                                  \* diverged after a reported error
+     ELSE IF hits = 0 /\ ~f THEN ExactlyClean(i, c, r, d, s)              \* Deterministic
+     ELSE r # Ok \/ MeansClean(i, c, r, s)                                \* ErrorOrCorrect
+FaultCall(i, c, r, f, d, s) ==
+  /\ FaultCallOk(i, c, r, f, d, s)
+  /\ sync' = (sync /\ MeansClean(i, c, r, s))
   /\ hits' = IF f THEN hits + 1 ELSE hits
   /\ pos' = i
   /\ UNCHANGED <<phase, wl, expWl, expected, heap>>
 
-ResetObjects(r) ==
+ResetObjectsOk(r) ==
   /\ phase = "fault" /\ pos = Len(expected)   \* the whole program was executed, errors or not
   /\ r = Ok                                   \* Reusable
+ResetObjects(r) ==
+  /\ ResetObjectsOk(r)
   /\ phase' = "retry" /\ pos' = 0
   /\ UNCHANGED <<wl, expWl, expected, sync, hits, heap>>
 
-RetryCall(i, c, r, f, d) ==
+RetryCallOk(i, c, r, f, d, s) ==
   /\ phase = "retry" /\ i = pos + 1 /\ ~f
-  /\ SameAsClean(i, c, r, d)                  \* RetryEqualsClean
+  /\ ExactlyClean(i, c, r, d, s)              \* RetryEqualsClean
+RetryCall(i, c, r, f, d, s) ==
+  /\ RetryCallOk(i, c, r, f, d, s)
   /\ pos' = i
   /\ UNCHANGED <<phase, wl, expWl, expected, sync, hits, heap>>
 
+DestroyOk ==
+  \/ phase = "retry" /\ pos = Len(expected)    \* the retry was complete
+  \/ phase = "clean" /\ pos > 0
 Destroy ==
-  /\ \/ phase = "retry" /\ pos = Len(expected)
-     \/ phase = "clean" /\ pos > 0
+  /\ DestroyOk
   /\ phase' = "destroyed"
   /\ UNCHANGED <<wl, expWl, expected, pos, sync, hits, heap>>
 
-LeakReport(blocks, maps, fds) ==
+LeakReportOk(blocks, maps, fds) ==
   /\ phase = "destroyed"
   /\ blocks = 0 /\ maps = 0 /\ fds = 0        \* NoLeak
+LeakReport(blocks, maps, fds) ==
+  /\ LeakReportOk(blocks, maps, fds)
   /\ heap' = <<blocks, maps, fds>>
   /\ phase' = "done"
   /\ UNCHANGED <<wl, expWl, expected, pos, sync, hits>>
